@@ -228,6 +228,12 @@ def run(c: Check):
         c.violation("C03:type-identifier-derivation", "a class does not get the type identifier the documented rules give it "
                     "(got, expected): " + json.dumps(wrong)[:300], dict(pair=[], kind="type-identifier-derivation",
                                                                         probe="harness/drive_typeprobe.py", got=pr3))
+    ud = pr3.get("union_dict_ids")
+    if isinstance(ud, list) and ud[0] == ud[1]:
+        c.violation("C03:collision:dict-entry-moved-between-levels:union-valued-dict",
+                    "d: Param[Dict[str, Union[int, Dict[str, int]]]]: {'a': {'b': 1}, 'c': 2} and {'a': {'b': 1, 'c': 2}} share an "
+                    "identifier (dictionaries have no length or end marker; with values that may be ints or dictionaries an "
+                    "entry moves between the two levels)", dict(pair=[], kind="union-valued-dict", probe="harness/drive_typeprobe.py", got=pr3))
     if pr3["nested_same_name_ids"][0] == pr3["nested_same_name_ids"][1]:
         c.violation("C03:collision:nested-classes-same-simple-name", "Enc.Opt(x=1) and Dec.Opt(x=1) (two classes) share an identifier",
                     dict(pair=[], kind="nested-classes", probe="harness/drive_typeprobe.py", got=pr3))
